@@ -64,8 +64,21 @@ func (g *bsGenState) events(bn uint64, n int, gapBridge bool) (string, int) {
 			} else {
 				g.nextDC++
 			}
-			toks = append(toks, fmt.Sprintf("b;%d;%d;%d;%d;%s;%d;%s;%s;%s;%d;%s;%s;%s;%s", pos, dc, rng.Intn(2), bsNet(rng), hx(rng.Bytes(20)), bsNet(rng),
-				hx(rng.Bytes(20)), bsAmount(rng), bsMeta(rng), ts, tx, fa, hx(rng.Bytes(rng.Intn(12))), b2s(rng.Bool())))
+			// origin token: mostly some ERC-20, sometimes the native token (zero address) or the chain's gas token; the
+			// native-token flag is what the syncer derives from it
+			oa := common.BytesToAddress(rng.Bytes(20))
+			switch rng.Intn(10) {
+			case 0, 1:
+				oa = common.Address{}
+			case 2:
+				oa = bsGasToken
+			}
+			nat := oa == (common.Address{}) || oa == bsGasToken
+			if rng.Chance(10) {
+				nat = !nat // a record the log handlers would never produce: fed to the processor directly
+			}
+			toks = append(toks, fmt.Sprintf("b;%d;%d;%d;%d;%s;%d;%s;%s;%s;%d;%s;%s;%s;%s", pos, dc, rng.Intn(2), bsNet(rng), hx(oa[:]), bsNet(rng),
+				hx(rng.Bytes(20)), bsAmount(rng), bsMeta(rng), ts, tx, fa, hx(rng.Bytes(rng.Intn(12))), b2s(nat)))
 			stmts += 34
 			g.bounds = append(g.bounds, stmts-1) // the event's own row is its last statement
 		case k < 7:
